@@ -139,6 +139,27 @@ def _resolve_codemod_id(tree, class_node):
     return None
 
 
+def _use_before_import(tree):
+    """A top-level name is read on an earlier line than the top-level import that binds it: the snippet is
+    already broken at run time (NameError / UnboundLocalError once wrapped in a function).  Such negative-test
+    inputs are not used as seeds."""
+    imports = {}
+    for st in tree.body:
+        if isinstance(st, (ast.Import, ast.ImportFrom)):
+            for a in st.names:
+                imports.setdefault((a.asname or a.name).split(".")[0], st.lineno)
+    if not imports:
+        return False
+    bound_otherwise = {n.id for n in ast.walk(tree) if isinstance(n, ast.Name) and isinstance(n.ctx, ast.Store)}
+    for n in ast.walk(tree):
+        if isinstance(n, ast.Name) and isinstance(n.ctx, ast.Load) and n.id in imports and n.id not in bound_otherwise and n.lineno < imports[n.id]:
+            return True
+    return False
+
+
+EXCLUDED = {"use-before-import": 0}
+
+
 def _usable(code):
     code = textwrap.dedent(code)
     if not code.strip():
@@ -146,8 +167,11 @@ def _usable(code):
     if not code.endswith("\n"):
         code += "\n"
     try:
-        ast.parse(code)
+        tree = ast.parse(code)
     except (SyntaxError, ValueError):
+        return None
+    if _use_before_import(tree):
+        EXCLUDED["use-before-import"] += 1
         return None
     return code
 
